@@ -101,6 +101,25 @@ def run_case(case, ctx):
                 exp[:, loc * ndof + d] = conn[:, loc] * ndof + d
         require(dc.shape == exp.shape and np.array_equal(dc, exp), "dofconnectivity-not-per-dof-expansion", ndof=ndof)
 
+    # --- the answers belong to the caller: editing a returned table in place must not change any later answer
+    for ndof in (1, 2):
+        t = dom.get_dofconnectivity(ndof)
+        if isinstance(t, np.ndarray) and t.flags.writeable:
+            t += 7
+    for t in (dom.get_elemconnectivity(EI.ravel(), EJ.ravel(), EK.ravel()), dom.get_node_indices(num.ravel()), dom.get_node_position(num.ravel())):
+        if isinstance(t, np.ndarray) and t.flags.writeable:
+            t += 3
+    require(np.array_equal(np.asarray(dom.conn), conn), "returned-table-aliases-the-domain-connectivity")
+    for ndof in (1, 2):
+        exp = np.empty((nel, 2 ** dim * ndof), dtype=int)
+        for loc in range(2 ** dim):
+            for d in range(ndof):
+                exp[:, loc * ndof + d] = conn[:, loc] * ndof + d
+        require(np.array_equal(np.asarray(dom.get_dofconnectivity(ndof)), exp), "dofconnectivity-changes-after-caller-edited-an-earlier-answer", ndof=ndof)
+    require(np.array_equal(np.asarray(dom.get_elemconnectivity(EI.ravel(), EJ.ravel(), EK.ravel())), conn[enum.ravel()]),
+            "elemconnectivity-changes-after-caller-edited-an-earlier-answer")
+    require(np.array_equal(np.asarray(dom.get_node_indices(num.ravel())), want), "node-indices-change-after-caller-edited-an-earlier-answer")
+
     # --- shape functions
     nn = np.asarray(dom.node_numbering, dtype=float)
     pts = [nn[a] * size / 2 for a in range(2 ** dim)] + [np.zeros(3)]
